@@ -239,6 +239,34 @@ func stressTimeout(seed int64, scale int) int {
 			v.add(fmt.Sprintf("Timeout that did not fire did not return the inner result: (%d, %v)", val, err))
 		}
 	}
+	// a Timeout that fires for one attempt says nothing about a sibling attempt: under a hedge policy (whose cancel condition lets a
+	// timed-out attempt pass) the hedged attempt, started 15 ms later with a limit of its own, is not cancelled when the first
+	// attempt's limit elapses - it reads IsCanceled() == false and its context is live
+	for i := 0; i < 2*scale; i++ {
+		fired := make(chan struct{})
+		var once sync.Once
+		var k atomic.Int32
+		sawCancelled, ctxDone := false, false
+		to := timeout.Builder[int](20 * time.Millisecond).OnTimeoutExceeded(func(failsafe.ExecutionDoneEvent[int]) { once.Do(func() { close(fired) }) }).Build()
+		hp := hedgepolicy.BuilderWithDelay[int](15 * time.Millisecond).WithMaxHedges(1).CancelIf(func(_ int, err error) bool { return err == nil }).Build()
+		val, err := failsafe.NewExecutor[int](hp, to).GetWithExecution(func(e failsafe.Execution[int]) (int, error) {
+			if k.Add(1) == 1 {
+				<-e.Canceled()
+				return 0, errX
+			}
+			select {
+			case <-fired:
+			case <-time.After(time.Second):
+			}
+			sawCancelled, ctxDone = e.IsCanceled(), e.Context().Err() != nil
+			return 5, nil
+		})
+		runs++
+		v.count("sibling-attempt-after-timeout")
+		if err != nil || val != 5 || sawCancelled || ctxDone {
+			v.add(fmt.Sprintf("hedged attempt after its sibling's Timeout fired: result (%d, %v), IsCanceled=%v, context done=%v (want (5, nil), false, false)", val, err, sawCancelled, ctxDone))
+		}
+	}
 	// an execution that was cancelled from outside first, whose function is still winding down when the Timeout's limit elapses: the
 	// timer's Cancel meets an already cancelled execution. Whatever error is reported (two sources: either is legitimate), the
 	// execution must end, and the listener is told at most once.
@@ -895,7 +923,7 @@ func stressCancel(seed int64, scale int) int {
 			defer wg.Done()
 			rng := rand.New(rand.NewSource(s))
 			for i := 0; i < per; i++ {
-				stack := rng.Intn(13)
+				stack := rng.Intn(14)
 				source := rng.Intn(4) // 0 ctx cancel, 1 ctx deadline, 2 async Cancel, 3 enclosing Timeout
 				at := time.Duration(rng.Intn(1500)) * time.Microsecond
 				var fbCalls, lateStarts atomic.Int32
@@ -942,9 +970,14 @@ func stressCancel(seed int64, scale int) int {
 					ps, name = []failsafe.Policy[int]{bh, hp}, "bulkhead(full)>hedge"
 				case 12:
 					ps, name = []failsafe.Policy[int]{fb, hp}, "fallback>hedge"
+				case 13:
+					// a hedge delay far longer than the run: when the cancellation arrives no hedge has been started yet, and the attempt's
+					// result (any result is accepted: no cancel conditions) is what wakes the coordinating loop - not the delay timer
+					hpLong := hedgepolicy.BuilderWithDelay[int](3 * time.Second).WithMaxHedges(2).Build()
+					ps, name = []failsafe.Policy[int]{hpLong}, "hedge(3s delay)"
 				}
 				fnDur := time.Duration(rng.Intn(400)) * time.Microsecond
-				if stack == 9 || stack == 11 || stack == 12 {
+				if stack == 9 || stack == 11 || stack == 12 || stack == 13 {
 					// without a retry policy the execution would complete on its own: its attempts only return once cancelled, so
 					// that the cancellation is what ends it
 					fnDur = 2 * time.Second
